@@ -65,7 +65,17 @@ def run_cell(cell, rec, seed):
         for dims in index_lists(rng, D, tier):
             dims = np.asarray(dims)
             inf = dict(info, dims=dims.tolist())
-            m = _call(rec, "get_marginal", lambda: p.get_marginal(JI(dims)), inf)
+            if rng.random() < 0.3:
+                # history: the same marginal was taken from this object while it still was
+                # another density; then it was overwritten in place with update()
+                ph = _call(rec, "pdf_via_update", lambda: build.pdf_via_update(
+                    rng, t, diag, warm=lambda o: o.get_marginal(JI(dims))), inf)
+                inf = dict(inf, via_update=True)
+            else:
+                ph = p
+            if ph is None:
+                continue
+            m = _call(rec, "get_marginal", lambda: ph.get_marginal(JI(dims)), inf)
             rec.cell(["marginal", diag, R, D, dims.tolist()], D > 1)
             if m is None:
                 continue
